@@ -73,8 +73,8 @@ func NewCtx(id, tier string, level string) *Ctx {
 	return c
 }
 
-func (c *Ctx) Quick() bool    { return c.Tier != "thorough" }
-func (c *Ctx) TimeUp() bool   { return time.Now().After(c.Deadline) }
+func (c *Ctx) Quick() bool                        { return c.Tier != "thorough" }
+func (c *Ctx) TimeUp() bool                       { return time.Now().After(c.Deadline) }
 func (c *Ctx) Assumef(f string, a ...interface{}) { c.Assume = append(c.Assume, fmt.Sprintf(f, a...)) }
 
 // Sample records an explored case for the evidence file (first 8 are kept).
